@@ -118,6 +118,7 @@ def s01_iterator_discipline(ctx):
         if not some_paths or not none_paths:
             r.violate(short + '|next|missing-paths', '%s::next has %d yielding and %d exhausted paths' % (short, some_paths, none_paths), nb.file, nb.line)
         r.sample({'iterator': short, 'remaining_field': rfield, 'next_paths': {'Some': some_paths, 'None': none_paths}})
+        _exact_len_agrees(f, m, r, p, short, rfield)
         # (3) other overrides returning Option<Item>
         for name, pth in sorted(fn.items()):
             if name in ('next', 'size_hint'):
@@ -167,6 +168,31 @@ def s01_iterator_discipline(ctx):
     r.floor('window iterators', 2, n)
     r.info['other_exact_size_iterators_listed_only'] = info_only
     return r
+
+
+def _exact_len_agrees(f, m, r, p, short, rfield):
+    """an overridden ExactSizeIterator::len must report the same remaining count as size_hint (the field, or a call of size_hint / len of the
+    same iterator)"""
+    for i in f.impls:
+        if i['trait'] == 'std::iter::ExactSizeIterator' and i['self_tyj'].get('def') == p:
+            lp = m.impl_fn_path(i, 'len')
+            lb = m.body_inlined(lp) if lp else None
+            if lb is None:
+                continue
+            key = '%s|ExactSizeIterator::len' % short
+            r.inst(key)
+            for pf in all_path_facts(lb):
+                if not pf.returns:
+                    continue
+                t = _strip(pf.ret) if pf.ret else ('?',)
+                while t[0] == 'cast':
+                    t = _strip(t[2])
+                if _self_field(t) == rfield:
+                    continue
+                if t[0] == 'call' and t[4].endswith('::size_hint') or (t[0] == 'field' and _strip(t[1])[0] == 'call' and _strip(t[1])[4].endswith('::size_hint')):
+                    continue
+                r.violate(key + '|differs-from-size_hint', '%s: the overridden ExactSizeIterator::len returns %s, size_hint reports `%s`: after the first next() len() no longer '
+                          'equals the number of items still to come' % (short, tree_str(pf.ret)[:60] if pf.ret else '?', rfield), lb.file, lb.line)
 
 
 def s01b_pos_len_iterators(ctx):
